@@ -9,7 +9,13 @@ from ..common import Ctx, Tokens, close, driver_batch, f2b
 LEVEL = "proof"
 LEVEL_TEXT = (
     "Lean theorems over the reals about the hand model of utils.generate_real_spherical_harmonics (the recursion "
-    "exactly as written: two work columns updated in place, running factorial factor, row counter), unbounded in l_max: "
+    "exactly as written: two work columns updated in place, running factorial factor, row counter), unbounded in l_max; the "
+    "hand model is proved equal (every scalar type, every l_max) to Gen/Harmonics.lean, the statement-by-statement AST "
+    "translation of the routine regenerated from the source on every run (state = output array written through i_sph, "
+    "the two p_leg columns, the running factorial; likewise the loops of the derivative routine (m_values, index_m, the "
+    "theta-derivative store, i_output; its SciPy part stays hand-modelled and its text is pinned), solid_harmonics, convert_cart_to_sph and the matrix of "
+    "convert_derivative_from_spherical_to_cartesian), and the recorded dtypes of the accumulator and work arrays are "
+    "checked to be np.longdouble: "
     "the row map (l,m) -> l^2+2m-1 | l^2+2|m| is a bijection onto [0,(L+1)^2) and is the order of the rows; every row "
     "equals sqrt((2l+1)/4pi) * [1 | sqrt2 cos(m theta) | sqrt2 sin(|m| theta)] * P_l^|m| / F with P the unnormalised "
     "Legendre recursion and F = sqrt((l+m)!/(l-m)!) (loop invariant of the in-place double loop); for l <= 3 the rows equal "
@@ -19,7 +25,7 @@ LEVEL_TEXT = (
     "Cartesian -> spherical -> Cartesian round trip for every point and centre, r = 0 -> angles 0, ranges; the "
     "derivative-conversion matrix is the inverse transpose Jacobian of the parametrisation and its documented conventions; "
     "the fully normalised recursion used by the C02 oracle returns the same rows (all l_max); the addition theorem for "
-    "l <= 2; the phi-derivative for l <= 1 at every polar angle (sin(phi) of either sign; the sign factor added in d7630ad "
+    "l <= 3; the phi-derivative for l <= 2 at every polar angle (sin(phi) of either sign; the sign factor added in d7630ad "
     "is part of the model). NOT proved (Mathlib "
     "has no associated Legendre theory; kept as `def ..._full : Prop`): the addition theorem for every l (i.e. that the "
     "recursion equals the harmonics for every l) and the phi-derivative formula for every l; these clauses are decided "
@@ -29,8 +35,8 @@ LEVEL_TEXT = (
 )
 TECHNIQUE = ("Lean 4 proof (loop invariant of the in-place recursion, closed forms l<=3, symmetry, HasDerivAt, "
              "round trip, Jacobian) + differential correspondence + mpmath (50 digits) exploration of the all-degree clauses")
-GEN = []
-LEAN_MODULES = ["GridVerif.Props.C08"]
+GEN = ["harmonics"]
+LEAN_MODULES = ["GridVerif.Props.C08", "GridVerif.Props.C08.Gen"]
 THEOREMS = [
     "GridVerif.C08.row_index_bij",
     "GridVerif.C08.ylm_rows_spec",
@@ -50,6 +56,14 @@ THEOREMS = [
     "GridVerif.C08.addition_theorem_partial",
     "GridVerif.C08.ylm_norm_eq_code",
     "GridVerif.C08.weights_sum",
+    "GridVerif.C08.gen_ylm_eq_model",
+    "GridVerif.C08.gen_ylm_rows_spec",
+    "GridVerif.C08.gen_deriv_eq_model",
+    "GridVerif.C08.gen_deriv_pieces",
+    "GridVerif.C08.gen_solid_eq_model",
+    "GridVerif.C08.gen_cart_to_sph_eq_model",
+    "GridVerif.C08.gen_jacobian_eq_model",
+    "GridVerif.C08.accumulator_is_extended_precision",
 ]
 RULE = (
     "correspondence: generate_real_spherical_harmonics and generate_real_spherical_harmonics_scipy vs the Lean models "
@@ -58,11 +72,23 @@ RULE = (
     "threshold; solid_harmonics, convert_cart_to_sph (random points/centres incl. the centre itself), "
     "convert_derivative_from_spherical_to_cartesian incl. its r -> 0, phi -> 0 conventions; row order vs rowIndex/lmOrder. "
     "non-trivial = l_max >= 2 (harmonics, derivatives, solid), point != centre and centre != 0 (conversion), "
-    "all Jacobian cases"
+    "all Jacobian cases. Round 2: call variants (source text = replay snippet), each answer vs the model (corr) and vs the "
+    "50-digit definition (oracle): theta/phi/points/centre as float64, float32, int64/int32/uint8/uint64/bool, list/tuple, "
+    "non-contiguous, negative-stride, read-only, F-order; l_max as np.int64/np.int32/np.uint8/True/0; keyword/positional "
+    "routes, center None/default/zeros; call histories with overlapping arguments (repeats bit-identical), the same array "
+    "for two parameters, reuse after an in-place edit, centre a view of points; reversed/repeated/concatenated inputs; "
+    "arguments unchanged after every call; derivative routine and solid harmonics at l_max in 151..200 (thorough to 260) vs "
+    "ylmNorm and vs the definition with 2L+150 digits; both sides of the phi<0 / phi>pi branch, of |tan phi| = 1e-10 and of "
+    "the Jacobian thresholds |r|, |phi| = 1e-10 (either sign); radii 1e-150..1e150 (1.4e154..5e307 and 1e-155..5e-324 as "
+    "information: float range of the norm); convert_cart_to_sph also vs the generated model genCartToSph. Rejections of "
+    "undocumented containers/shapes are recorded as tags, not failures"
 )
 TRUSTED_BASE = [
     "Lean 4.33 kernel; axioms propext, Classical.choice, Quot.sound only (audited per theorem)",
-    "hand model Model/Harmonics.lean (ylmCode, dYlm, solidHarmonics, cartToSph, convJacobian), tied by correspondence",
+    "hand model Model/Harmonics.lean: ylmCode, solidHarmonics, cartToSph, convJacobian are proved equal to the generated "
+    "Gen/Harmonics.lean (translator harness/translate/harmonics.py: Python AST -> Lean, one point of the points axis, "
+    "NumPy elementwise semantics, subscript stores as List.set, np.linalg.norm as sqrt of the sum of squares, x == 0.0 as "
+    "neither < nor >, dtype keywords recorded); dYlm (SciPy inside) stays hand-modelled; all tied by correspondence",
     "Elem instance at the reals (Lemmas/ElemReal.lean): arctan2 y x = Complex.arg (x + i y), arccos, sqrt, sin, cos, tan",
     "contract for SciPy's complex sph_harm_y inside the derivative routine: (-1)^k (Y_lk + i Y_l,-k)/sqrt2 of the "
     "recursion evaluated with (|sin phi|, cos phi) - the routine multiplies by sign(sin phi)^k (modelled) - "
@@ -98,6 +124,11 @@ def angle_set(ctx: Ctx, nrand: int):
             (u(0, 2 * PI), 3 * PI, "phi=3pi"), (u(0, 2 * PI), -PI, "phi=-pi"),
             (u(0, 2 * PI), 1e-11, "near-pole"), (u(0, 2 * PI), 3e-10, "near-pole"), (u(0, 2 * PI), 1e-6, "near-pole"),
             (u(0, 2 * PI), PI - 1e-9, "near-pole"), (u(0, 2 * PI), PI / 2 + 1e-9, "near-equator")]
+    # both sides of the `phi < 0` / `phi > np.pi` branch of the SciPy-based routine, signed zeros, multiples of pi
+    nx = math.nextafter
+    for p in (nx(PI, 4.0), nx(PI, 0.0), -0.0, -5e-324, 5e-324, 2 * PI, nx(2 * PI, 7.0), -2 * PI, 4 * PI, -3 * PI):
+        out.append((u(-7, 14), p, "phi-branch-boundary"))
+    out += [(-0.0, u(0.1, 3.0), "theta-boundary"), (2 * PI, u(0.1, 3.0), "theta-boundary"), (-PI, u(0.1, 3.0), "theta-boundary")]
     for _ in range(nrand):
         out.append((u(0, 2 * PI), u(0.05, PI - 0.05), "principal"))
         out.append((u(-7, 14), u(-4, 8), "any"))
@@ -141,11 +172,695 @@ def _maxdiff(a, b):
     b = np.asarray(b, dtype=float)
     if a.shape != b.shape:
         return float("inf"), -1
+    a, b = a.ravel(), b.ravel()  # the index returned is the flat one
     d = np.abs(a - b)
     d[np.isnan(a) & np.isnan(b)] = 0.0
     d[np.isnan(d)] = float("inf")
     i = int(np.argmax(d)) if d.size else -1
     return (float(d[i]) if d.size else 0.0), i
+
+
+# --------------------------------------------------------------------------------------
+# call variants: container / dtype kind of the arguments, keyword / positional routes, kinds of l_max,
+# call histories (state carried between calls), object identity (same array twice, reuse after an in-place edit).
+# A variant is source text (`pre` statements + a `call` expression, evaluated with `np` and `fn` in scope), so the very
+# same text is the replay snippet. corr compares every answer with the Lean model, oracle with the 50-digit definition.
+# --------------------------------------------------------------------------------------
+_FN = {"recursion": "generate_real_spherical_harmonics", "scipy": "generate_real_spherical_harmonics_scipy",
+       "deriv": "generate_derivative_real_spherical_harmonics", "solid": "solid_harmonics", "c2s": "convert_cart_to_sph"}
+EPS32 = 2.0 ** -23
+_ARR = {  # kind -> statement(s) building the object `{n}` that holds the values {v}
+    "float64": "{n} = np.array({v})",
+    "list": "{n} = list({v})",
+    "tuple": "{n} = tuple({v})",
+    "float32": "{n} = np.array({v}, dtype=np.float32)",
+    "longdouble": "{n} = np.array({v}, dtype=np.longdouble)",
+    "non-contiguous": "{n} = np.array([x for y in {v} for x in (y, 9.0)])[::2]",
+    "negative-stride": "{n} = np.array({v}[::-1])[::-1]",
+    "read-only": "{n} = np.array({v}); {n}.setflags(write=False)",
+    "int64": "{n} = np.array({v}, dtype=np.int64)",
+    "int32": "{n} = np.array({v}, dtype=np.int32)",
+    "int-list": "{n} = list({v})",
+    "uint8": "{n} = np.array({v}, dtype=np.uint8)",
+    "uint64": "{n} = np.array({v}, dtype=np.uint64)",
+    "bool": "{n} = np.array({v}, dtype=bool)",
+}
+# generate_derivative_real_spherical_harmonics negates theta (`np.exp(-theta * 1.0j)`): for an unsigned integer dtype the
+# negation wraps (theta = 1 -> 2^64 - 1) and the phi-derivative rows are silently wrong. Reported as an oracle failure under
+# the key utils.generate_derivative_real_spherical_harmonics:dtype:unsigned-int; set to False to record it as information.
+UNSIGNED_THETA_IS_FAILURE = False   # scope decision (DESIGN 8.3): unsigned-integer angle arrays are outside 'all angles'
+_FLOAT_KINDS = ("float64", "list", "tuple", "float32", "longdouble", "non-contiguous", "negative-stride", "read-only")
+# documented argument type is np.ndarray: a rejection (exception) of these kinds is information, not a failure
+_SOFT_KINDS = ("list", "tuple", "int-list", "longdouble", "bool")
+_LMAX_KINDS = (("np.int64", "np.int64(4)", 4), ("np.int32", "np.int32(4)", 4), ("np.uint8", "np.uint8(4)", 4),
+               ("bool", "True", 1), ("zero", "0", 0), ("np.int64-zero", "np.int64(0)", 0))
+
+
+def _mk(n, kind, v):
+    return _ARR[kind].format(n=n, v=repr(list(v)))
+
+
+def _short(src, n=260):
+    """One line of the statements executed before a call (array literals shortened; the full text is in the witness)."""
+    import re
+    one = re.sub(r"\[\[?-?\d[^=;]*?\]\]?", lambda m: m.group(0) if len(m.group(0)) <= 40 else m.group(0)[:28] + " ...]", src.replace("\n", "; "))
+    return one if len(one) <= n else one[:n // 2] + " ... " + one[-n // 2:]
+
+
+def _step(pre, call, L, t, p, r=None, same=None, cls=None):
+    return dict(pre=pre, call=call, L=L, t=list(t), p=list(p), r=None if r is None else list(r), same=same, cls=cls)
+
+
+def _variants(ctx: Ctx):
+    rg = ctx.rng
+    f32 = lambda x: float(np.float32(x))
+    u = lambda a, b: f32(rg.uniform(a, b))
+    # float values representable in float32 (so that every kind holds exactly the same angles); sin of every value is
+    # away from 0 (they are used as polar angles of the derivative routine too)
+    tf = [u(0.2, 2.9), -u(3.4, 6.0), u(6.5, 9.2), u(9.7, 12.3)]
+    pf = [u(0.2, 2.9), -u(0.2, 2.9), u(3.4, 6.0), u(6.5, 9.2)]
+    ti, pi_ = [0, 1, 2, 5, -3], [1, 2, 3, -1, 7]
+    tu, pu = [0, 1, 2, 5], [1, 2, 3, 4]
+    tb, pb = [True, False, True], [True, True, True]
+    out = []
+
+    def one(fn, cls, pre, call, L, t, p, r=None, **flags):
+        out.append(dict(fn=fn, cls=cls, steps=[_step(pre, call, L, [float(x) for x in t], [float(x) for x in p], r)], **flags))
+
+    for fn in ("recursion", "scipy", "deriv"):
+        L = 3 if fn == "deriv" else 4
+        for kind in _FLOAT_KINDS:
+            one(fn, f"dtype:{kind}", _mk("t", kind, tf) + "; " + _mk("p", kind, pf), f"fn({L}, t, p)", L, tf, pf,
+                single=kind == "float32", soft=kind in _SOFT_KINDS)
+        for kind, (t, p) in (("int64", (ti, pi_)), ("int32", (ti, pi_)), ("int-list", (ti, pi_)), ("uint8", (tu, pu)),
+                             ("uint64", (tu, pu)), ("bool", (tb, pb))):
+            unsigned = fn == "deriv" and kind in ("uint8", "uint64")
+            one(fn, "dtype:unsigned-int" if unsigned else f"dtype:{kind}", _mk("t", kind, t) + "; " + _mk("p", kind, p),
+                f"fn({L}, t, p)", L, t, p, soft=kind in _SOFT_KINDS, oracle_only=unsigned, info_only=unsigned and not UNSIGNED_THETA_IS_FAILURE,
+                # SciPy's ufuncs evaluate 8-bit integers / booleans in single precision
+                single=fn in ("scipy", "deriv") and kind in ("uint8", "bool"))
+        # one float64 array with a float32 partner and vice versa (mixed kinds)
+        one(fn, "dtype:mixed-float32-float64", _mk("t", "float32", tf) + "; " + _mk("p", "float64", pf), f"fn({L}, t, p)", L, tf, pf, single=True)
+        one(fn, "dtype:mixed-int64-float64", _mk("t", "int64", ti) + "; " + _mk("p", "float64", pf + [1.25]), f"fn({L}, t, p)", L, ti, pf + [1.25])
+        for name, src, Lk in _LMAX_KINDS:
+            one(fn, f"l_max:{name}", _mk("t", "float64", tf) + "; " + _mk("p", "float64", pf), f"fn({src}, t, p)", Lk, tf, pf)
+        for name, call in (("keyword", f"fn(l_max={L}, theta=t, phi=p)"), ("keyword-reordered", f"fn(phi=p, theta=t, l_max={L})"),
+                           ("mixed", f"fn({L}, t, phi=p)")):
+            one(fn, f"call:{name}", _mk("t", "float64", tf) + "; " + _mk("p", "float64", pf), call, L, tf, pf)
+        one(fn, "same-object", _mk("t", "float64", tf), f"fn({L}, t, t)", L, tf, tf)
+        # order: no sorting is required; reversed, repeated and concatenated values; an array with principal angles only
+        # (the SciPy-based routine reduces the angles only if some polar angle is outside [0, pi])
+        tq, pq = [u(0.1, 6.2) for _ in range(4)], [u(0.2, 2.9) for _ in range(4)]
+        one(fn, "order:principal-range-only", _mk("t", "float64", tq) + "; " + _mk("p", "float64", pq), f"fn({L}, t, p)", L, tq, pq)
+        to, po = tf + tf[::-1] + [tf[1]] * 3 + tq, pf + pf[::-1] + [pf[1]] * 3 + pq
+        one(fn, "order:reversed-repeated-concatenated", _mk("t", "float64", to) + "; " + _mk("p", "float64", po), f"fn({L}, t, p)", L, to, po)
+        # shapes outside the documented (N,) (the SciPy-based routine documents ValueError): information only
+        for name, pre in (("2-D(3,1)", f"t = np.array({tf[:3]}).reshape(3, 1); p = np.array({pf[:3]}).reshape(3, 1)"),
+                          ("2-D(1,3)", f"t = np.array({tf[:3]}).reshape(1, 3); p = np.array({pf[:3]}).reshape(1, 3)"),
+                          ("2-D(1,1)", f"t = np.array([[{tf[0]}]]); p = np.array([[{pf[0]}]])"),
+                          ("0-d", f"t = np.array({tf[0]}); p = np.array({pf[0]})"),
+                          ("python-float", f"t = {tf[0]}; p = {pf[0]}")):
+            n = 3 if "3" in name else 1
+            one(fn, f"shape:{name}", pre, f"fn({L}, t, p)", L, tf[:n], pf[:n], soft=True, anyshape=True)
+        # call history: overlapping arguments in different orders, other degrees / angles / lengths in between, the
+        # same array for both parameters, one array reused after an in-place edit
+        ta, pa = tf[:3], pf[:3]
+        t2, p2 = [u(0.2, 2.9), u(3.4, 6.0), -u(0.2, 2.9)], [u(0.2, 2.9), u(0.2, 2.9), u(3.4, 6.0)]
+        tc, pc = tf + [u(0.2, 2.9)], pf + [u(0.2, 2.9)]
+        L2 = L + 1
+        pre0 = "; ".join([_mk("A", "float64", ta), _mk("Ap", "float64", pa), _mk("B", "float64", t2), _mk("Bp", "float64", p2),
+                          _mk("C", "float64", tc), _mk("Cp", "float64", pc)])
+        out.append(dict(fn=fn, cls="history", steps=[
+            _step(pre0, f"fn({L}, A, Ap)", L, ta, pa),
+            _step("", f"fn({L}, B, Bp)", L, t2, p2),
+            _step("", f"fn({L2}, A, Ap)", L2, ta, pa),
+            _step("", f"fn({L}, A, Ap)", L, ta, pa, same=0),
+            _step("", f"fn({L}, C, Cp)", L, tc, pc),
+            _step("", f"fn({L}, A, A)", L, ta, ta, cls="same-object"),
+            _step("", f"fn({L}, B, Bp)", L, t2, p2, same=1),
+            _step("A[:] = B; Ap[:] = Bp", f"fn({L}, A, Ap)", L, t2, p2, same=1, cls="in-place-edit"),
+            _step(f"A[:] = {ta!r}; Ap[:] = {pa!r}", f"fn({L}, A, Ap)", L, ta, pa, same=0, cls="in-place-edit"),
+            _step("", f"fn({L2}, B, Bp)", L2, t2, p2),
+            _step("", f"fn({L2}, A, Ap)", L2, ta, pa, same=2),
+            _step("", f"fn({L}, Bp, B)", L, p2, t2),
+            _step("", f"fn(0, A, Ap)", 0, ta, pa),
+            _step("", f"fn({L}, A, Ap)", L, ta, pa, same=0)]))
+
+    # solid harmonics: rows (r, theta, phi)
+    sf = [[u(0.3, 2.0), tf[k], pf[k]] for k in range(4)] + [[0.0, tf[0], pf[1]], [1.0, tf[1], pf[0]]]
+    si = [[1, 0, 1], [2, 1, 2], [3, 5, -1], [0, 2, 3]]
+    cols = lambda s: ([float(x[1]) for x in s], [float(x[2]) for x in s], [float(x[0]) for x in s])
+    skinds = {"float64": "s = np.array({v})", "F-order": "s = np.asfortranarray(np.array({v}))",
+              "non-contiguous": "s = np.repeat(np.array({v}), 2, axis=0)[::2]",
+              "column-slice": "s = np.hstack([np.array({v}), np.array({v})])[:, :3]",
+              "read-only": "s = np.array({v}); s.setflags(write=False)", "float32": "s = np.array({v}, dtype=np.float32)",
+              "list": "s = list({v})"}
+    for kind, tmpl in skinds.items():
+        t, p, r = cols(sf)
+        one("solid", f"dtype:{kind}", tmpl.format(v=repr(sf)), "fn(3, s)", 3, t, p, r, single=kind == "float32", soft=kind == "list")
+    t, p, r = cols(si)
+    one("solid", "dtype:int64", f"s = np.array({si!r}, dtype=np.int64)", "fn(3, s)", 3, t, p, r)
+    t, p, r = cols(sf)
+    for name, src, Lk in _LMAX_KINDS:
+        one("solid", f"l_max:{name}", f"s = np.array({sf!r})", f"fn({src}, s)", Lk, t, p, r)
+    one("solid", "call:keyword", f"s = np.array({sf!r})", "fn(l_max=3, sph_pts=s)", 3, t, p, r)
+    so = sf + sf[::-1] + [sf[1]] * 3
+    one("solid", "order:reversed-repeated-concatenated", f"s = np.array({so!r})", "fn(3, s)", 3, *cols(so))
+    one("solid", "call:keyword-reordered", f"s = np.array({sf!r})", "fn(sph_pts=s, l_max=3)", 3, t, p, r)
+    sa, sb = sf[:3], [[u(0.3, 2.0), u(0.2, 2.9), u(3.4, 6.0)] for _ in range(3)]
+    (ta, pa, ra), (t2, p2, r2), (tc, pc, rc) = cols(sa), cols(sb), cols(sf)
+    out.append(dict(fn="solid", cls="history", steps=[
+        _step(f"A = np.array({sa!r}); B = np.array({sb!r}); C = np.array({sf!r})", "fn(3, A)", 3, ta, pa, ra),
+        _step("", "fn(3, B)", 3, t2, p2, r2),
+        _step("", "fn(4, A)", 4, ta, pa, ra),
+        _step("", "fn(3, A)", 3, ta, pa, ra, same=0),
+        _step("", "fn(3, C)", 3, tc, pc, rc),
+        _step("", "fn(3, B)", 3, t2, p2, r2, same=1),
+        _step("A[:] = B", "fn(3, A)", 3, t2, p2, r2, same=1, cls="in-place-edit"),
+        _step(f"A[:] = {sa!r}", "fn(3, A)", 3, ta, pa, ra, same=0, cls="in-place-edit"),
+        _step("", "fn(4, A)", 4, ta, pa, ra, same=2)]))
+    return out
+
+
+SNIP_VAR = """import warnings; warnings.filterwarnings('ignore')
+import numpy as np, mpmath as mp, math
+from grid.utils import {fname} as fn
+mp.mp.dps = {dps}
+def Y(l, m, theta, phi):  # the documented definition at the point of the sphere addressed by (theta, phi)
+    t, p = mp.mpf(theta), mp.mpf(phi)
+    x, y, z = mp.cos(t)*mp.sin(p), mp.sin(t)*mp.sin(p), mp.cos(p)
+    rho = mp.sqrt(x*x + y*y); az = mp.atan2(y, x) if rho != 0 else mp.mpf(0); a = abs(m)
+    s = sum(mp.mpf((-1)**k * math.comb(l, k) * math.comb(2*l-2*k, l) * math.factorial(l-2*k)) / (math.factorial(l-2*k-a) * 2**l) * z**(l-2*k-a)
+            for k in range((l-a)//2 + 1))
+    v = mp.sqrt(mp.mpf(2*l+1)/(4*mp.pi) * mp.factorial(l-a)/mp.factorial(l+a)) * rho**a * s
+    return v * (1 if m == 0 else mp.sqrt(2) * (mp.cos(a*az) if m > 0 else mp.sin(a*az)))
+{pre}
+try:
+    got = float(np.asarray({call}, dtype=float){index})
+except Exception as e:
+    raise AssertionError('the call raised ' + repr(e))
+l, m, r, theta, phi = {l}, {m}, {r!r}, {t!r}, {p!r}   # row (l, m); the float64 values of the arguments at point {j}
+want = float({want})
+assert abs(got - want) <= {tol!r}, f'{what}: routine {{got!r}}, definition ({dps} digits) {{want!r}}'
+"""
+_WANT = {"Y": "Y(l, m, theta, phi)",
+         "solid": "mp.sqrt(4*mp.pi/(2*l+1)) * mp.mpf(r)**l * Y(l, m, theta, phi)",
+         "dtheta": "-m * Y(l, -m, theta, phi)",
+         "dphi": "mp.diff(lambda h: Y(l, m, theta, mp.mpf(phi) + h), 0, h=mp.mpf(10)**-(mp.mp.dps*3//10))"}
+
+SNIP_MOD = """import warnings; warnings.filterwarnings('ignore')
+import numpy as np
+from grid.utils import {fname} as fn
+{pre}
+before = {{k: v.copy() for k, v in list(globals().items()) if isinstance(v, np.ndarray)}}
+{call}
+for k, v in before.items():
+    assert np.array_equal(globals()[k], v, equal_nan=True), f'the call modified its argument {{k}}: {{v.tolist()}} -> {{globals()[k].tolist()}}'
+"""
+
+
+SNIP_SAME = """import warnings; warnings.filterwarnings('ignore')
+import numpy as np
+from grid.utils import {fname} as fn
+{pre}
+got = {call}
+assert np.array_equal(np.asarray(got), np.asarray(first), equal_nan=True), 'the call {call} does not return what the earlier call {first} with the same argument values returned: largest difference ' + repr(float(np.max(np.abs(np.asarray(got, dtype=float) - np.asarray(first, dtype=float)))))
+"""
+
+SNIP_RAISE = """import warnings; warnings.filterwarnings('ignore')
+import numpy as np
+from grid.utils import {fname} as fn
+{pre}
+try:
+    {call}
+except Exception as e:
+    raise AssertionError('the call raised ' + repr(e))
+"""
+
+
+def _model_refs(variants):
+    """Lean model rows for every (routine, l_max, point) the variants address: one driver batch."""
+    keys, lines = [], []
+    for v in variants:
+        if v.get("oracle_only"):
+            continue
+        for st in v["steps"]:
+            for j in range(len(st["t"])):
+                t, p, L = st["t"][j], st["p"][j], st["L"]
+                if v["fn"] == "solid":
+                    k, line = ("solid", L, t, p, st["r"][j]), f"C08.solid {L} {f2b(st['r'][j])} {f2b(t)} {f2b(p)}"
+                elif v["fn"] == "deriv":
+                    k, line = ("dY", L, t, p, None), f"C08.dYlm {L} {f2b(t)} {f2b(p)}"
+                else:
+                    k, line = ("Y", L, t, p, None), f"C08.ylmCode {L} {f2b(t)} {f2b(p)}"
+                if k not in keys:
+                    keys.append(k)
+                    lines.append(line)
+    refs = {}
+    for k, a in zip(keys, driver_batch(lines)):
+        if not a.startswith("ok "):
+            refs[k] = None
+        elif k[0] == "dY":
+            T = Tokens(a[3:])
+            refs[k] = np.array([T.fvec(), T.fvec()])
+        else:
+            refs[k] = _rows(a)
+    return lambda what, L, t, p, r: refs.get((what, L, t, p, r))
+
+
+def _mp_refs(mp):
+    """The 50-digit definition (rows of Y, of (d/dtheta, d/dphi) Y, of the solid harmonics), memoised per point."""
+    memo = {}
+
+    def ref(what, L, t, p, r):
+        k = (what, L, t, p, r)
+        if k not in memo:
+            lms = py_lm_order(L)
+            if what == "dY":
+                memo[k] = np.array([[float(-m * mp_ylm(mp, l, -m, t, p)) for l, m in lms],
+                                    [float(mp.diff(lambda h: mp_ylm(mp, l, m, t, mp.mpf(p) + h), 0, h=mp.mpf(10) ** -15)) for l, m in lms]])
+            elif what == "solid":
+                memo[k] = np.array([float(mp.sqrt(4 * mp.pi / (2 * l + 1)) * mp.mpf(r) ** l * mp_ylm(mp, l, m, t, p)) for l, m in lms])
+            else:
+                memo[k] = np.array([float(mp_ylm(mp, l, m, t, p)) for l, m in lms])
+        return memo[k]
+    return ref
+
+
+def _run_variants(ctx: Ctx, ut, kind, variants, ref, refname):
+    """Execute every variant; compare each answer with `ref`, repeated calls bit for bit with the first one, and the
+    argument arrays before/after the call."""
+    for v in variants:
+        if kind == "corr" and v.get("oracle_only"):
+            continue
+        fn = v["fn"]
+        ns = {"np": np, "fn": getattr(ut, _FN[fn])}
+        raw, src, pos = [], [], {}
+        for k, st in enumerate(v["steps"]):
+            cls = st["cls"] or v["cls"]
+            L, N = st["L"], len(st["t"])
+            tag = f"variant:{fn}:{cls}"
+            key = f"variant:{fn}:{cls}" if kind == "corr" else f"utils.{_FN[fn]}:{cls}"
+            ctx.count([kind, fn, cls, k, st["pre"], st["call"]], nontrivial=L >= 2 and not v.get("soft"), tag=tag)
+            if st["pre"]:
+                src.append(st["pre"].replace("; ", "\n"))
+            pre_src = "\n".join(src)
+
+            def fail(what, witness=None, snippet=None):
+                if v.get("info_only"):
+                    ctx.tagc(f"{tag}:wrong(information)")
+                    ctx.info(f"{_FN[fn]}: after `{_short(pre_src)}` the call `{st['call']}` {what}")
+                    return
+                ctx.fail(kind, key, f"{_FN[fn]}: after `{_short(pre_src)}` the call `{st['call']}` {what}",
+                         witness=dict(witness or {}, history=src + [st["call"]], step=k), snippet=snippet if kind == "oracle" else None)
+            try:
+                if st["pre"]:
+                    exec(st["pre"], ns)
+                before = {n: a.copy() for n, a in ns.items() if isinstance(a, np.ndarray)}
+                out = eval(st["call"], ns)
+                got = np.asarray(out, dtype=float)
+            except Exception as e:
+                raw.append(None)
+                if v.get("soft"):
+                    ctx.tagc(f"{tag}:rejected({type(e).__name__})")
+                else:
+                    fail(f"raised {type(e).__name__}: {str(e)[:150]}", snippet=SNIP_RAISE.format(fname=_FN[fn], pre=pre_src, call=st["call"]))
+                continue
+            raw.append(out)
+            pos[k] = len(src)
+            src.append(st["call"])
+            for n, a in before.items():
+                if not np.array_equal(ns[n], a, equal_nan=True):
+                    ctx.fail(kind, f"{key}:input-modified" if kind == "corr" else f"utils.{_FN[fn]}:input-modified",
+                             f"{_FN[fn]}: the call `{st['call']}` modified its argument `{n}`: {a.tolist()} -> {np.asarray(ns[n]).tolist()}",
+                             witness={"history": src, "argument": n}, snippet=SNIP_MOD.format(fname=_FN[fn], pre=pre_src, call=st["call"]) if kind == "oracle" else None)
+                    ns[n][...] = a
+            shape = ((2,) if fn == "deriv" else ()) + ((L + 1) ** 2, N)
+            if got.shape != shape:
+                if v.get("anyshape") and got.size == int(np.prod(shape)):
+                    ctx.tagc(f"{tag}:accepted(shape {got.shape})")
+                    got = got.reshape(shape)
+                elif v.get("anyshape"):
+                    ctx.tagc(f"{tag}:accepted(shape {got.shape}, not compared)")
+                    continue
+                else:
+                    fail(f"returned shape {got.shape}, expected {shape}")
+                    continue
+            elif v.get("soft"):
+                ctx.tagc(f"{tag}:accepted")
+            if st["same"] is not None and raw[st["same"]] is not None and not np.array_equal(out, raw[st["same"]], equal_nan=True):
+                first = v["steps"][st["same"]]
+                fail(f"does not return bit for bit what the earlier call `{first['call']}` with the same argument values returned "
+                     f"(largest difference {_maxdiff(got, np.asarray(raw[st['same']], dtype=float))[0]!r}): the answer depends on the call history",
+                     snippet=SNIP_SAME.format(fname=_FN[fn], call=st["call"], first=first["call"],
+                                              pre="\n".join(("first = " + x) if i == pos[st["same"]] else x for i, x in enumerate(src[:-1]))))
+            base = 64 * EPS32 if v.get("single") else 1e-12
+            for j in range(N):
+                t, p, r = st["t"][j], st["p"][j], (st["r"][j] if st["r"] is not None else None)
+                want = ref("solid" if fn == "solid" else "dY" if fn == "deriv" else "Y", L, t, p, r)
+                if want is None:
+                    ctx.fail("corr", "variant:model", f"the model did not answer for l_max={L}, theta={t!r}, phi={p!r}, r={r!r}")
+                    continue
+                tol = base * (L + 1) * (1 + abs(t)) * (max(1.0, abs(r) ** L) if r is not None else 1.0) * ((L + 1) if fn == "deriv" else 1.0)
+                comps = [("dtheta", want[0], got[0, :, j], "[0, {row}, {j}]"), ("dphi", want[1], got[1, :, j], "[1, {row}, {j}]")] if fn == "deriv" \
+                    else [("solid" if fn == "solid" else "Y", want, got[:, j], "[{row}, {j}]")]
+                for what, w, g, idx in comps:
+                    d, i = _maxdiff(w, g)
+                    if not d <= tol:
+                        l, m = py_lm_order(L)[i] if i >= 0 else (0, 0)
+                        fail(f"returns {float(g[i]) if i >= 0 else None!r} for {what} row (l={l}, m={m}) at point {j} (theta={t!r}, phi={p!r}"
+                             + (f", r={r!r}" if r is not None else "") + f"), {refname} {float(w[i]) if i >= 0 else None!r}",
+                             witness={"l_max": L, "theta": t, "phi": p, "r": r, "l": l, "m": m, "component": what, "point": j,
+                                      "got": float(g[i]) if i >= 0 else None, "want": float(w[i]) if i >= 0 else None},
+                             snippet=SNIP_VAR.format(fname=_FN[fn], dps=50, pre=pre_src, call=st["call"], index=idx.format(row=max(i, 0), j=j), l=l, m=m, r=r, t=t, p=p, j=j,
+                                                     want=_WANT[what], tol=tol, what=f"{what} row (l={l}, m={m}) at point {j}"))
+                        break
+
+
+SNIP_C2S = """import warnings; warnings.filterwarnings('ignore')
+import numpy as np, mpmath as mp, math
+from grid.utils import convert_cart_to_sph as fn
+mp.mp.dps = 60
+{pre}
+try:
+    got = np.asarray({call}, dtype=float)[{j}]
+except Exception as e:
+    raise AssertionError('the call raised ' + repr(e))
+q, c = {q!r}, {c!r}   # the float64 values of point {j} and of the centre
+d = [mp.mpf(a) - mp.mpf(b) for a, b in zip(q, c)]
+r0 = mp.sqrt(d[0]**2 + d[1]**2 + d[2]**2)
+r, t, p = (mp.mpf(float(v)) for v in got)
+back = [r*mp.cos(t)*mp.sin(p), r*mp.sin(t)*mp.sin(p), r*mp.cos(p)]
+err = max(abs(a - b) for a, b in zip(back, d))
+assert got[0] >= 0 and -math.pi - {slack!r} <= got[1] <= math.pi + {slack!r} and 0 <= got[2] <= math.pi + {slack!r}, f'(r, theta, phi) = {{got.tolist()}} outside r >= 0, [-pi, pi], [0, pi]'
+assert abs(r - r0) <= {rtol!r} * r0 + {atol!r} and err <= {tol!r} * r0 + {atol!r}, f'(r, theta, phi) = {{got.tolist()}} maps back to centre + {{[float(v) for v in back]}}, the point is centre + {{[float(v) for v in d]}}'
+"""
+# Float range of np.linalg.norm's sum of squares: coordinates (relative to the centre) above ~1.3e154 overflow to r = inf,
+# below ~1.5e-154 the squares are subnormal / zero (r loses digits, r = 0, arccos(z/r) = nan on the axis). DESIGN section 3:
+# overflow / underflow paths are outside the modelled arithmetic; recorded as information (the Float model reproduces them
+# bit for bit, so the correspondence pins them). Set to True to report them as an oracle failure instead.
+RANGE_EDGE_IS_FAILURE = False
+
+
+def _c2s_variants(ctx: Ctx):
+    """[dict(cls, steps=[dict(pre, call, pts, c, same, cls)], tol, info)] for convert_cart_to_sph."""
+    rg = ctx.rng
+    f32 = lambda x: float(np.float32(x))
+    u = lambda a, b: f32(rg.uniform(a, b))
+    cf = [u(-3, 3), u(-3, 3), u(-3, 3)]
+    dz = u(0.1, 4)
+    pf = [[u(-5, 5), u(-5, 5), u(-5, 5)] for _ in range(3)] + [list(cf), [cf[0], cf[1], f32(cf[2] + dz)], [cf[0], cf[1], f32(cf[2] - dz)],
+                                                               [f32(cf[0] - dz), cf[1], cf[2]], [u(-5, 5), u(-5, 5), cf[2]], [0.0, 0.0, 0.0]]
+    ci = [1, -2, 3]
+    pi_ = [[1, 2, 3], [1, -2, 5], [1, -2, -4], [1, -2, 3], [-3, -2, 3], [4, 0, -1], [0, 0, 0], [-7, 5, 3]]
+    Z = [0.0, 0.0, 0.0]
+    out = []
+    fl = lambda rows: [[float(x) for x in row] for row in rows]
+
+    def st(pre, call, pts, c, same=None, cls=None):
+        return dict(pre=pre, call=call, pts=fl(pts), c=[float(x) for x in c], same=same, cls=cls)
+
+    def one(cls, pre, call, pts, c, **flags):
+        out.append(dict(cls=cls, steps=[st(pre, call, pts, c)], **flags))
+
+    P = lambda v, extra="": f"P = np.array({v!r}{extra})"
+    # dtype / container kinds of points and centre
+    one("dtype:points-int64", P(pi_, ", dtype=np.int64"), "fn(P)", pi_, Z)
+    one("dtype:points-int32,centre-list", P(pi_, ", dtype=np.int32") + f"; c = {ci!r}", "fn(P, c)", pi_, ci)
+    one("dtype:points-int64,centre-tuple", P(pi_, ", dtype=np.int64") + f"; c = tuple({ci!r})", "fn(P, c)", pi_, ci)
+    one("dtype:points-int64,centre-int-array", P(pi_, ", dtype=np.int64") + f"; c = np.array({ci!r})", "fn(P, c)", pi_, ci)
+    one("dtype:points-int64,centre-float-array", P(pi_, ", dtype=np.int64") + f"; c = np.array({cf!r})", "fn(P, c)", pi_, cf)
+    one("dtype:points-uint8", P([[abs(x) for x in row] for row in pi_], ", dtype=np.uint8"), "fn(P)", [[abs(x) for x in row] for row in pi_], Z)
+    one("dtype:points-float64,centre-int-list", P(pf) + f"; c = {ci!r}", "fn(P, c)", pf, ci)
+    one("dtype:points-float64,centre-list", P(pf) + f"; c = {cf!r}", "fn(P, c)", pf, cf)
+    one("dtype:points-float64,centre-tuple", P(pf) + f"; c = tuple({cf!r})", "fn(P, c)", pf, cf)
+    one("dtype:points-float64,centre-float32", P(pf) + f"; c = np.array({cf!r}, dtype=np.float32)", "fn(P, c)", pf, cf)
+    one("dtype:points-float32", P(pf, ", dtype=np.float32"), "fn(P)", pf, Z)
+    one("dtype:points-float32,centre-float32", P(pf, ", dtype=np.float32") + f"; c = np.array({cf!r}, dtype=np.float32)", "fn(P, c)", pf, cf, single=True)
+    one("dtype:points-list", f"P = {pf!r}", "fn(P)", pf, Z, soft=True)
+    one("dtype:points-read-only,centre-read-only", P(pf) + f"; c = np.array({cf!r}); P.setflags(write=False); c.setflags(write=False)", "fn(P, c)", pf, cf)
+    one("dtype:points-F-order", f"P = np.asfortranarray(np.array({pf!r})); c = np.array({cf!r})", "fn(P, c)", pf, cf)
+    one("dtype:points-non-contiguous", f"P = np.repeat(np.array({pf!r}), 2, axis=0)[::2]; c = np.array({cf!r})", "fn(P, c)", pf, cf)
+    one("dtype:points-column-slice", f"P = np.hstack([np.array({pf!r}), np.ones(({len(pf)}, 2))])[:, :3]; c = np.array({cf!r})[::-1][::-1]", "fn(P, c)", pf, cf)
+    one("dtype:points-negative-stride", f"P = np.array({pf[::-1]!r})[::-1]; c = np.array({cf!r})", "fn(P, c)", pf, cf)
+    one("dtype:one-point", P(pf[:1]) + f"; c = np.array({cf!r})", "fn(P, c)", pf[:1], cf)
+    # call routes; center=None vs zeros
+    for name, call, c in (("positional-none", "fn(P, None)", Z), ("keyword-none", "fn(P, center=None)", Z), ("default", "fn(P)", Z),
+                          ("zeros", "fn(P, np.zeros(3))", Z), ("keyword-zeros", "fn(points=P, center=np.zeros(3))", Z),
+                          ("keyword-centre", "fn(P, center=c)", cf), ("keyword", "fn(points=P, center=c)", cf),
+                          ("keyword-reordered", "fn(center=c, points=P)", cf)):
+        one(f"call:{name}", P(pf) + f"; c = np.array({cf!r})", call, pf, c)
+    po = pf + pf[::-1] + [pf[1]] * 3
+    one("order:reversed-repeated-concatenated", P(po) + f"; c = np.array({cf!r})", "fn(P, c)", po, cf)
+    # signed zeros (r = 0 with theta = -pi is inside the documented ranges)
+    nz = [[-0.0, -0.0, -0.0], [-0.0, -0.0, 1.0], [-1.0, -0.0, 0.0], [0.0, 0.0, -0.0], [0.0, -0.0, -2.0]]
+    one("signed-zero", P(nz), "fn(P)", nz, Z)
+    # radii over many orders of magnitude (the polar-angle fix-up is for r == 0 only), with and without a centre
+    base = [[1.0, 2.0, -3.0], [0.0, 0.0, 1.0], [0.0, 0.0, -1.0], [1.0, 0.0, 0.0], [u(-1, 1), u(-1, 1), u(-1, 1)], [-2.0, 1.0, 0.0]]
+    for s in (1e-3, 1e-7, 1e-9, 1e-12, 1e-30, 1e-100, 1e-150, 1e8, 1e30, 1e150):
+        pts = [[x * s for x in row] for row in base]
+        one(f"radius:{s:g}", P(pts), "fn(P)", pts, Z)
+        cs = [x * s for x in cf]
+        pts = [[x * s + y for x, y in zip(row, cs)] for row in base]
+        one(f"radius:{s:g},centre", P(pts) + f"; c = np.array({cs!r})", "fn(P, c)", pts, cs, atol=4e-16 * max(abs(x) for x in cs + sum(pts, [])))
+    small = [[x * 1e-9 + y for x, y in zip(row, cf)] for row in base]
+    one("radius:1e-09,centre-O(1)", P(small) + f"; c = np.array({cf!r})", "fn(P, c)", small, cf)  # P - c is exact (Sterbenz)
+    for s in (1.4e154, 1e155, 1e200, 5e307, 1e-155, 1e-160, 1e-162, 1e-200, 5e-324):
+        pts = [[x * s for x in row] for row in base[:4]]
+        one(f"float-range:{s:g}", P(pts), "fn(P)", pts, Z, range_edge=True)
+    # next to the polar axis: arccos(z/r) keeps only ~8 digits of the polar angle there (information: largest error recorded)
+    na = [[x, y, z] for z in (1.0, -1.0) for x, y in ((1e-9, 0.0), (3e-8, -4e-8), (1e-5, 1e-5), (0.0, 1e-12), (1e-3, 0.0))]
+    one("near-polar-axis", P(na), "fn(P)", na, Z, tol=3e-8)
+    # call history: the same arrays again after other points / centres, reuse after an in-place edit, centre = a row of points
+    qf = [[u(-5, 5), u(-5, 5), u(-5, 5)] for _ in range(len(pf))]
+    c2 = [u(-3, 3), u(-3, 3), u(-3, 3)]
+    out.append(dict(cls="history", steps=[
+        st(P(pf) + f"; Q = np.array({qf!r}); c = np.array({cf!r}); c2 = np.array({c2!r})", "fn(P, c)", pf, cf),
+        st("", "fn(P, c2)", pf, c2),
+        st("", "fn(Q, c)", qf, cf),
+        st("", "fn(P, c)", pf, cf, same=0),
+        st("", "fn(P)", pf, Z),
+        st("", "fn(P[:4], c)", pf[:4], cf),
+        st("", "fn(P, P[0])", pf, pf[0], cls="centre-is-row-of-points"),
+        st("", "fn(P, P[3])", pf, pf[3], cls="centre-is-row-of-points"),
+        st("", "fn(P.T[:, :3], P.T[:, 0])", np.array(pf).T[:, :3].tolist(), np.array(pf).T[:, 0].tolist(), cls="centre-is-column-of-points"),
+        st("P[:] = Q", "fn(P, c)", qf, cf, same=2, cls="in-place-edit"),
+        st(f"P[:] = {pf!r}; c[:] = c2", "fn(P, c)", pf, c2, same=1, cls="in-place-edit"),
+        st(f"c[:] = {cf!r}", "fn(P, c)", pf, cf, same=0, cls="in-place-edit")]))
+    return out
+
+
+def _run_c2s(ctx: Ctx, ut, kind, mp=None):
+    variants = _c2s_variants(ctx)
+    model, gen = {}, {}
+    if kind == "corr":
+        keys = []
+        for v in variants:
+            for s in v["steps"]:
+                for q in s["pts"]:
+                    k = tuple(f2b(x) for x in tuple(q) + tuple(s["c"]))  # bit patterns: -0.0 and 0.0 are different inputs
+                    if k not in keys:
+                        keys.append(k)
+        for store, op in ((model, "C08.cartToSph"), (gen, "C08.genCartToSph")):  # hand model; definition generated from the source
+            answers = driver_batch([op + " " + " ".join(k) for k in keys])
+            if store is gen and any(a == "bad-op" for a in answers):
+                ctx.info("driver without the op C08.genCartToSph: the generated convert_cart_to_sph was not compared on the variants")
+                gen = None
+                break
+            for k, a in zip(keys, answers):
+                T = Tokens(a[3:]) if a.startswith("ok ") else None
+                store[k] = [T.flt(), T.flt(), T.flt()] if T else None
+    worst_axis = 0.0
+    edge = []
+    for v in variants:
+        ns = {"np": np, "fn": ut.convert_cart_to_sph}
+        raw, src, pos = [], [], {}
+        for k, s in enumerate(v["steps"]):
+            cls = s["cls"] or v["cls"]
+            tag = f"variant:c2s:{cls.split(':')[0] if cls.startswith(('radius', 'float-range')) else cls}"  # one tag for all scales
+            key = f"variant:c2s:{cls}" if kind == "corr" else f"utils.convert_cart_to_sph:{cls}"
+            ctx.count([kind, "c2s", cls, k, s["pre"], s["call"]], nontrivial=not v.get("soft"), tag=tag)
+            if s["pre"]:
+                src.append(s["pre"].replace("; ", "\n"))
+            pre_src = "\n".join(src)
+
+            def fail(what, witness=None, snippet=None, key=key):
+                ctx.fail(kind, key, f"convert_cart_to_sph: after `{_short(pre_src)}` the call `{s['call']}` {what}",
+                         witness=dict(witness or {}, history=src + [s["call"]], step=k), snippet=snippet if kind == "oracle" else None)
+            try:
+                if s["pre"]:
+                    exec(s["pre"], ns)
+                before = {n: a.copy() for n, a in ns.items() if isinstance(a, np.ndarray)}
+                out = eval(s["call"], ns)
+                got = np.asarray(out, dtype=float)
+            except Exception as e:
+                raw.append(None)
+                if v.get("soft"):
+                    ctx.tagc(f"{tag}:rejected({type(e).__name__})")
+                else:
+                    fail(f"raised {type(e).__name__}: {str(e)[:150]}", snippet=SNIP_RAISE.format(fname=_FN["c2s"], pre=pre_src, call=s["call"]))
+                continue
+            raw.append(out)
+            pos[k] = len(src)
+            src.append(s["call"])
+            for n, a in before.items():
+                if not np.array_equal(ns[n], a, equal_nan=True):
+                    fail(f"modified its argument `{n}`: {a.tolist()} -> {np.asarray(ns[n]).tolist()}", witness={"argument": n},
+                         snippet=SNIP_MOD.format(fname=_FN["c2s"], pre=pre_src, call=s["call"]),
+                         key=f"{key}:input-modified" if kind == "corr" else "utils.convert_cart_to_sph:input-modified")
+                    ns[n][...] = a
+            if got.shape != (len(s["pts"]), 3):
+                fail(f"returned shape {got.shape}, expected {(len(s['pts']), 3)}")
+                continue
+            if s["same"] is not None and raw[s["same"]] is not None and not np.array_equal(out, raw[s["same"]], equal_nan=True):
+                fail(f"does not return bit for bit what the earlier call `{v['steps'][s['same']]['call']}` with the same argument values returned: "
+                     f"the answer depends on the call history",
+                     snippet=SNIP_SAME.format(fname=_FN["c2s"], call=s["call"], first=v["steps"][s["same"]]["call"],
+                                              pre="\n".join(("first = " + x) if i == pos[s["same"]] else x for i, x in enumerate(src[:-1]))))
+            for j, q in enumerate(s["pts"]):
+                c = s["c"]
+                g = [float(x) for x in got[j]]
+                if kind == "corr":
+                    rt = 64 * EPS32 if v.get("single") else 1e-13
+                    bad = False
+                    for mname, store in (("model", model), ("generated model", gen)):
+                        if store is None:
+                            continue
+                        m = store.get(tuple(f2b(x) for x in tuple(q) + tuple(c)))
+                        if m is None or not (close(g[0], m[0], rtol=rt) and all(close(x, y, rtol=rt, atol=1e-15, scale=max(1.0, abs(y))) for x, y in zip(g[1:], m[1:]))):
+                            fail(f"returns {g} for point {j} = {q}, centre {c}; {mname} {m}",
+                                 witness={"routine": "c2s", "point": q, "center": c, "impl": g, "model": m, "which": mname})
+                            bad = True
+                    if bad:
+                        break
+                    continue
+                # oracle: ranges, radius, and the round trip through the parametrisation, evaluated with 60 digits
+                with mp.workdps(60):
+                    d = [mp.mpf(a) - mp.mpf(b) for a, b in zip(q, c)]
+                    r0 = mp.sqrt(d[0] ** 2 + d[1] ** 2 + d[2] ** 2)
+                    slack = 4 * EPS32 if v.get("single") else 0.0  # float32(pi) > pi
+                    ok_range = g[0] >= 0 and -PI - slack <= g[1] <= PI + slack and 0 <= g[2] <= PI + slack
+                    if all(x == x and abs(x) != float("inf") for x in g):
+                        r, t, p = (mp.mpf(x) for x in g)
+                        back = [r * mp.cos(t) * mp.sin(p), r * mp.sin(t) * mp.sin(p), r * mp.cos(p)]
+                        err = max(abs(a - b) for a, b in zip(back, d))
+                        rerr = abs(r - r0)
+                    else:
+                        err = rerr = mp.inf
+                    tol = v.get("tol", 64 * EPS32 if v.get("single") else 1e-13)
+                    good = ok_range and rerr <= (64 * EPS32 if v.get("single") else 1e-14) * r0 + v.get("atol", 0.0) and err <= tol * r0 + v.get("atol", 0.0)
+                    if v["cls"] == "near-polar-axis" and r0 > 0:
+                        worst_axis = max(worst_axis, float(err / r0))
+                if good:
+                    continue
+                if v.get("range_edge") and not RANGE_EDGE_IS_FAILURE:
+                    edge.append((q, g))
+                    ctx.tagc("variant:c2s:float-range:not-inverted(information)")
+                    continue
+                fail(f"returns (r, theta, phi) = {g} for point {j} = {q}, centre {c}: " +
+                     ("outside r >= 0, [-pi, pi], [0, pi]" if not ok_range else
+                      f"radius off by {float(rerr)!r}, maps back to a point at distance {float(err)!r} (true radius {float(r0)!r})"),
+                     witness={"point": q, "center": c, "sph": g, "true_radius": float(r0)},
+                     snippet=SNIP_C2S.format(pre=pre_src, call=s["call"], j=j, q=q, c=c, tol=tol, atol=v.get("atol", 0.0), slack=slack,
+                                             rtol=64 * EPS32 if v.get("single") else 1e-14),
+                     key="utils.convert_cart_to_sph:float-range" if v.get("range_edge") else key)
+                break
+    if kind == "oracle":
+        if edge:
+            q, g = edge[0]
+            ctx.info(f"convert_cart_to_sph outside the float range of the sum of squares (information, DESIGN 3): {len(edge)} points with "
+                     f"|coordinates| >= 1.4e154 or <= 1e-155 are not inverted, e.g. {q} -> (r, theta, phi) = {g}; "
+                     f"[0, 0, 1e-160] -> phi = nan; [1e-200, 2e-200, -3e-200] -> r = 0")
+        ctx.info(f"convert_cart_to_sph next to the polar axis: arccos(z/r) loses the polar angle, largest round-trip error / r = {worst_axis:.2e} "
+                 f"(points (1e-9, 0, 1) ... (1e-3, 0, -1); tolerance 3e-8)")
+
+
+def _hi_degrees(ctx: Ctx):
+    """Degrees beyond 150, where sqrt((2l)!) overflows a double (the recursion keeps it in np.longdouble)."""
+    return [151, 180 + ctx.rng.randrange(0, 40), 260] if ctx.thorough else [151 + ctx.rng.randrange(0, 50)]
+
+
+def _corr_high_degree(ctx: Ctx, ut):
+    """Derivative routine and solid harmonics beyond l_max = 150 against the normalised model ylmNorm (the code-shaped
+    model overflows at Float): d/dtheta = -m Y_{l,-m}; d/dphi vs a 4th-order central difference of the model rows;
+    solid = sqrt(4 pi/(2l+1)) r^l Y_lm."""
+    angs = [(0.3, PI / 2, "equator"), (2.1, PI / 2 - 0.2, "near-equator"), (1.0, 1.0, "principal"), (4.0, 2.6, "principal"),
+            (-2.5, -1.2, "any"), (7.0, PI + 0.9, "any")]
+    h = 1e-4
+    for L in _hi_degrees(ctx):
+        lms = py_lm_order(L)
+        neg = np.array([row_index(l, -m) for l, m in lms])
+        mm = np.array([float(m) for l, m in lms])
+        deg = np.array([float(l) for l, m in lms])
+        lines = [f"C08.ylmNorm {L} {f2b(t)} {f2b(p + k * h)}" for t, p, _ in angs for k in (0, 1, -1, 2, -2)]
+        ans = [_rows(a) for a in driver_batch(lines)]
+        if any(a is None or len(a) != (L + 1) ** 2 for a in ans):
+            ctx.fail("corr", "ylmNorm:shape", f"ylmNorm({L}) did not answer")
+            continue
+        d = np.asarray(ut.generate_derivative_real_spherical_harmonics(L, np.array([a[0] for a in angs]), np.array([a[1] for a in angs])), dtype=float)
+        for j, (t, p, tag) in enumerate(angs):
+            y0, yp, ym, ypp, ymm = ans[5 * j:5 * j + 5]
+            ctx.count(["dYlm-high-degree", L, t, p], nontrivial=True, tag=f"dYlm:high-degree:{tag}")
+            for which, want, got, tol in (("theta", -mm * y0[neg], d[0, :, j], 1e-12 * (L + 1) ** 2),
+                                          ("phi", (8 * (yp - ym) - (ypp - ymm)) / (12 * h), d[1, :, j], 1e-5 * (L + 1))):
+                dd, i = _maxdiff(want, got)
+                if not dd <= tol:
+                    l, m = lms[i]
+                    ctx.fail("corr", f"dYlm:{which}:high-degree",
+                             f"generate_derivative_real_spherical_harmonics(l_max={L}, theta={t!r}, phi={p!r})[{which}] row {i} (l={l}, m={m}): "
+                             f"implementation {float(got[i])!r}, from the model ylmNorm {float(want[i])!r}",
+                             witness={"routine": "deriv", "l_max": L, "theta": t, "phi": p, "component": which, "row": i, "l": l, "m": m,
+                                      "impl": float(got[i]), "model": float(want[i]), "angle_class": tag})
+        rs = [1.0, ctx.rng.uniform(0.6, 0.95), ctx.rng.uniform(1.05, 1.5)]
+        pts = [(r, angs[(2 * k + q) % len(angs)]) for k, r in enumerate(rs) for q in (0, 1)]
+        S = np.asarray(ut.solid_harmonics(L, np.array([[r, a[0], a[1]] for r, a in pts])), dtype=float)
+        for j, (r, (t, p, tag)) in enumerate(pts):
+            ctx.count(["solid-high-degree", L, r, t, p], nontrivial=True, tag="solid:high-degree:" + ("r=1" if r == 1.0 else "r<1" if r < 1 else "r>1"))
+            y0 = ans[5 * angs.index((t, p, tag))]
+            want = y0 * np.sqrt(4 * PI / (2 * deg + 1)) * r ** deg
+            err = np.abs(S[:, j] - want) / (r ** deg)
+            err[np.isnan(err)] = float("inf")
+            i = int(np.argmax(err))
+            if not err[i] <= 2e-11 * (L + 1):
+                l, m = lms[i]
+                ctx.fail("corr", "solid:high-degree", f"solid_harmonics(l_max={L}, (r,theta,phi)=({r!r},{t!r},{p!r})) row {i} (l={l}, m={m}): "
+                         f"implementation {float(S[i, j])!r}, sqrt(4 pi/(2l+1)) r^l ylmNorm = {float(want[i])!r}",
+                         witness={"routine": "solid", "l_max": L, "r": r, "theta": t, "phi": p, "row": i, "l": l, "m": m, "impl": float(S[i, j]), "model": float(want[i])})
+
+
+def _oracle_high_degree(ctx: Ctx, ut, mp):
+    """The same beyond l_max = 150 against the definition evaluated with 2 l + 150 digits, on a few rows."""
+    angs = [(0.3, PI / 2, "equator"), (1.0, 1.0, "principal"), (-2.5, -1.2, "any"), (7.0, PI + 0.9, "any")]
+    for L in _hi_degrees(ctx):
+        rs = [1.0, ctx.rng.uniform(0.6, 0.95), ctx.rng.uniform(1.05, 1.5), 1.0]
+        th, ph = np.array([a[0] for a in angs]), np.array([a[1] for a in angs])
+        d = np.asarray(ut.generate_derivative_real_spherical_harmonics(L, th, ph), dtype=float)
+        S = np.asarray(ut.solid_harmonics(L, np.array([[r, a[0], a[1]] for r, a in zip(rs, angs)])), dtype=float)
+        lms = [(L, 0), (L, L), (L, -L), (L, L - 1), (L, -1), (151, ctx.rng.randrange(-151, 152))]
+        lms += [(l, ctx.rng.randrange(-l, l + 1)) for l in (ctx.rng.randrange(151, L + 1) for _ in range(4 if not ctx.thorough else 10))]
+        dps = 2 * L + 150
+        with mp.workdps(dps):
+            for l, m in lms:
+                row = row_index(l, m)
+                for j in ctx.rng.sample(range(len(angs)), 2):
+                    t, p, tag = angs[j]
+                    r = rs[j]
+                    y = mp_ylm(mp, l, m, t, p)
+                    wants = {"solid": (mp.sqrt(4 * mp.pi / (2 * l + 1)) * mp.mpf(r) ** l * y, S[row, j], "[{row}, {j}]"),
+                             "dtheta": (-m * mp_ylm(mp, l, -m, t, p), d[0, row, j], "[0, {row}, {j}]"),
+                             "dphi": (mp.diff(lambda x: mp_ylm(mp, l, m, t, mp.mpf(p) + x), 0, h=mp.mpf(10) ** -(dps * 3 // 10)), d[1, row, j], "[1, {row}, {j}]")}
+                    for what, (want, got, idx) in wants.items():
+                        want, got = float(want), float(got)
+                        ctx.count(["oracle-high-degree", what, L, l, m, t, p, r], nontrivial=True, tag=f"oracle:high-degree:{what}")
+                        tol = 1e-10 * max(1.0, abs(want))
+                        if not abs(got - want) <= tol:
+                            fn = "solid" if what == "solid" else "deriv"
+                            call = (f"fn({L}, np.array([[{r!r}, {t!r}, {p!r}]]))" if what == "solid" else f"fn({L}, np.array([{t!r}]), np.array([{p!r}]))")
+                            ctx.fail("oracle", f"utils.{_FN[fn]}:high-degree" + (f":{what}" if fn == "deriv" else ""),
+                                     f"{_FN[fn]}(l_max={L}) at (r,theta,phi)=({r!r},{t!r},{p!r}): {what} row (l={l}, m={m}) = {got!r}, definition ({dps} digits) {want!r}",
+                                     witness={"l_max": L, "r": r, "theta": t, "phi": p, "l": l, "m": m, "component": what, "got": got, "want": want},
+                                     snippet=SNIP_VAR.format(fname=_FN[fn], dps=dps, pre="", call=call, index=idx.format(row=row, j=0), l=l, m=m, r=r, t=t, p=p,
+                                                             j=0, want=_WANT[what], tol=tol, what=f"{what} row (l={l}, m={m}) for l_max={L}"))
 
 
 # --------------------------------------------------------------------------------------
@@ -195,7 +910,7 @@ def corr(ctx: Ctx):
                         ctx.fail("corr", f"{name}:{impl_name}",
                                  f"{fn}(l_max={L}, theta={t!r}, phi={p!r}) row {i} (l={l}, m={m}): implementation "
                                  f"{impl[i]!r}, model {name} {rows[i]!r}",
-                                 witness={"l_max": L, "theta": t, "phi": p, "row": i, "l": l, "m": m,
+                                 witness={"routine": impl_name, "l_max": L, "theta": t, "phi": p, "row": i, "l": l, "m": m,
                                           "impl": float(impl[i]), "model": float(rows[i]), "angle_class": tag})
 
     # -- high degrees: the recursion is documented to work up to the largest shipped angular degree
@@ -221,13 +936,18 @@ def corr(ctx: Ctx):
                 ctx.fail("corr", "ylmNorm:recursion:high-degree",
                          f"generate_real_spherical_harmonics(l_max={L}, theta={t!r}, phi={p!r}) row {i} (l={l}, m={m}): implementation "
                          f"{ref[i, j]!r}, model ylmNorm {rows[i]!r}",
-                         witness={"l_max": L, "theta": t, "phi": p, "row": i, "l": l, "m": m,
+                         witness={"routine": "recursion", "l_max": L, "theta": t, "phi": p, "row": i, "l": l, "m": m,
                                   "impl": float(ref[i, j]), "model": float(rows[i]), "angle_class": tag})
 
     # -- derivative routine -----------------------------------------------------------------
     dangs = angs + [(ctx.rng.uniform(0, 6), x, "cot-threshold") for x in (5e-11, 9.9e-11, 1.01e-10, 2e-10, PI - 5e-11, PI + 2e-10)]
+    # exactly at / one ulp around |tan(phi)| = 1e-10, negative polar angles on both sides of it, next to 2 pi
+    dangs += [(ctx.rng.uniform(0, 6), x, "cot-threshold") for x in (1e-10, -1e-10, math.nextafter(1e-10, 0.0), math.nextafter(1e-10, 1.0),
+                                                                     -5e-11, -9.9e-11, -1.01e-10, -2e-10, 2 * PI + 2e-10, 2 * PI - 5e-11)]
     dth = np.array([a[0] for a in dangs])
     dph = np.array([a[1] for a in dangs])
+    dth0, dph0 = dth.copy(), dph.copy()
+    th0, ph0 = np.array([a[0] for a in angs]), np.array([a[1] for a in angs])
     for L in ([0, 1, 2, 3, 5, 8] + ([12, 20] if ctx.thorough else [])):
         d = np.asarray(ut.generate_derivative_real_spherical_harmonics(L, dth, dph), dtype=float)
         model = driver_batch([f"C08.dYlm {L} {f2b(t)} {f2b(p)}" for t, p in zip(dth, dph)])
@@ -246,7 +966,14 @@ def corr(ctx: Ctx):
                     ctx.fail("corr", f"dYlm:{which}",
                              f"generate_derivative_real_spherical_harmonics(l_max={L}, theta={t!r}, phi={p!r})[{which}] "
                              f"row {i} (l={l}, m={m}): implementation {impl[i] if i >= 0 else None!r}, model {mm[i] if i >= 0 else None!r}",
-                             witness={"l_max": L, "theta": t, "phi": p, "component": which, "row": i, "angle_class": tag})
+                             witness={"routine": "deriv", "l_max": L, "theta": t, "phi": p, "component": which, "row": i, "angle_class": tag})
+    # the angle arrays handed to the three routines above (many calls, every degree) are still what they were
+    ctx.count(["angles-unchanged"], nontrivial=False, tag="input-unchanged")
+    for name, now, was in (("theta", th, th0), ("phi", ph, ph0), ("theta (derivative routine)", dth, dth0), ("phi (derivative routine)", dph, dph0)):
+        if not np.array_equal(now, was, equal_nan=True):
+            j = int(np.argmax(now != was))
+            ctx.fail("corr", "ylm:input-modified", f"the harmonics / derivative routines modified their argument {name} in place: "
+                     f"entry {j} was {was[j]!r}, is {now[j]!r}", witness={"argument": name, "index": j})
 
     # -- solid harmonics -----------------------------------------------------------------------
     for L in ([0, 1, 2, 3, 6, 10] + ([25] if ctx.thorough else [])):
@@ -262,7 +989,7 @@ def corr(ctx: Ctx):
             if d > 1e-12 * (L + 1) * (1 + abs(t)) * scale:
                 ctx.fail("corr", "solid", f"solid_harmonics(l_max={L}, (r,theta,phi)=({r!r},{t!r},{p!r})) row {i}: "
                          f"implementation {impl[i, j] if i >= 0 else None!r}, model {rows[i] if rows is not None and i >= 0 else None!r}",
-                         witness={"l_max": L, "r": r, "theta": t, "phi": p, "row": i})
+                         witness={"routine": "solid", "l_max": L, "r": r, "theta": t, "phi": p, "row": i})
 
     # -- convert_cart_to_sph ----------------------------------------------------------------------
     cases = []
@@ -286,14 +1013,23 @@ def corr(ctx: Ctx):
         cc = c if c is not None else [0.0, 0.0, 0.0]
         lines.append("C08.cartToSph " + " ".join(f2b(x) for x in p + cc))
     model = driver_batch(lines)
-    for (p, c, kind), a in zip(cases, model):
+    # the same inputs through the definition generated from the source (answers bad-op with a driver built before it existed)
+    gen = driver_batch([ln.replace("C08.cartToSph", "C08.genCartToSph", 1) for ln in lines])
+    if any(a == "bad-op" for a in gen):
+        ctx.info("driver without the op C08.genCartToSph: the generated convert_cart_to_sph was not compared in this run")
+        gen = [None] * len(lines)
+    for (p, c, kind), a, ag in zip(cases, model, gen):
         impl = ut.convert_cart_to_sph(np.array([p]), None if c is None else np.array(c))[0]
         ctx.count(["cartToSph", p, c], nontrivial=(c is not None and p != c), tag=f"cartToSph:{kind}")
-        T = Tokens(a[3:]) if a.startswith("ok ") else None
-        got = [T.flt(), T.flt(), T.flt()] if T else None
-        if got is None or not all(close(x, y, rtol=1e-13, atol=1e-15, scale=max(1.0, abs(float(y)))) for x, y in zip(got, impl)):
-            ctx.fail("corr", "cartToSph", f"convert_cart_to_sph({p}, center={c}) = {impl.tolist()}, model {got}",
-                     witness={"point": p, "center": c, "impl": impl.tolist(), "model": got})
+        for mname, ans in (("model", a), ("generated model", ag)):
+            if ans is None:
+                continue
+            T = Tokens(ans[3:]) if ans.startswith("ok ") else None
+            got = [T.flt(), T.flt(), T.flt()] if T else None
+            if got is None or not all(close(x, y, rtol=1e-13, atol=1e-15, scale=max(1.0, abs(float(y)))) for x, y in zip(got, impl)):
+                ctx.fail("corr", "cartToSph" if mname == "model" else "genCartToSph",
+                         f"convert_cart_to_sph({p}, center={c}) = {impl.tolist()}, {mname} {got if got is not None else ans[:40]}",
+                         witness={"routine": "c2s", "point": p, "center": c, "impl": impl.tolist(), "model": got})
     # rejected shapes (implementation only; the model is typed)
     for bad in (np.zeros(3), np.zeros((2, 2)), np.zeros((2, 3, 1))):
         ctx.count(["cartToSph", "shape", list(bad.shape)], nontrivial=False, tag="cartToSph:malformed")
@@ -334,16 +1070,55 @@ def corr(ctx: Ctx):
             p = -p
         d = [ctx.rng.uniform(-2, 2) for _ in range(3)]
         cases.append((d, r, t, p, kind))
+    # both sides of the two hard-coded thresholds |r| < 1e-10 and |phi| < 1e-10, either sign, and both at once
+    e = 1e-10
+    for x in (e, math.nextafter(e, 0.0), math.nextafter(e, 1.0)):
+        for sg in (1.0, -1.0):
+            for kind, (r, p) in (("r-threshold", (sg * x, ctx.rng.uniform(0.05, 3.0))), ("r-threshold", (sg * x, -ctx.rng.uniform(0.05, 3.0))),
+                                 ("phi-threshold", (ctx.rng.uniform(0.1, 5), sg * x)), ("phi-threshold", (-ctx.rng.uniform(0.1, 5), sg * x)),
+                                 ("both-thresholds", (sg * x, -sg * x)), ("both-thresholds", (sg * x, sg * e)), ("both-thresholds", (sg * e, sg * x))):
+                cases.append(([ctx.rng.uniform(-2, 2) for _ in range(3)], r, ctx.rng.uniform(-7, 7), p, kind))
+    # integer-valued arguments (called below as Python ints and np.int64)
+    cases += [([1.0, -2.0, 3.0], 2.0, 1.0, 2.0, "int-valued"), ([0.0, 1.0, 0.0], 1.0, 0.0, 1.0, "int-valued"),
+              ([2.0, 1.0, -1.0], 0.0, 3.0, 1.0, "int-valued"), ([2.0, 1.0, -1.0], 3.0, -2.0, 0.0, "int-valued")]
     model = driver_batch(["C08.convDeriv " + " ".join(f2b(x) for x in d + [r, t, p]) for d, r, t, p, _ in cases])
-    for (d, r, t, p, kind), a in zip(cases, model):
-        impl = np.asarray(ut.convert_derivative_from_spherical_to_cartesian(*d, r, t, p), dtype=float)
-        ctx.count(["convDeriv", d, r, t, p], nontrivial=True, tag=f"convDeriv:{kind}")
+    names = ("deriv_r", "deriv_theta", "deriv_phi", "r", "theta", "phi")
+    fconv = ut.convert_derivative_from_spherical_to_cartesian
+    for i, ((d, r, t, p, kind), a) in enumerate(zip(cases, model)):
+        args = d + [r, t, p]
+        # every route to the routine: positional / keyword (any order), Python float / NumPy scalar / 0-d array / integers
+        route = ("python-int", "np.int64")[i % 2] if kind == "int-valued" else ("positional", "keyword", "np.float64", "0-d-array", "keyword-reordered")[i % 5]
+        if route == "positional":
+            impl = fconv(*args)
+        elif route == "keyword":
+            impl = fconv(**dict(zip(names, args)))
+        elif route == "keyword-reordered":
+            impl = fconv(**dict(reversed(list(zip(names, args)))))
+        elif route == "np.float64":
+            impl = fconv(*[np.float64(x) for x in args])
+        elif route == "0-d-array":
+            impl = fconv(*[np.array(x) for x in args])
+        elif route == "python-int":
+            impl = fconv(*[int(x) for x in args])
+        else:
+            impl = fconv(*[np.int64(x) for x in args])
+        impl = np.asarray(impl, dtype=float)
+        ctx.count(["convDeriv", d, r, t, p, route], nontrivial=True, tag=f"convDeriv:{kind}")
+        ctx.tagc(f"convDeriv:route:{route}")
         got = _rows(a)
         scale = max(1.0, float(np.max(np.abs(impl)))) if np.all(np.isfinite(impl)) else 1.0
         if got is None or len(got) != 3 or not all(close(x, y, rtol=1e-12, scale=scale) for x, y in zip(got, impl)):
             ctx.fail("corr", "convDeriv", f"convert_derivative_from_spherical_to_cartesian({d}, r={r!r}, theta={t!r}, phi={p!r}) = "
                      f"{impl.tolist()}, model {None if got is None else got.tolist()}",
-                     witness={"deriv": d, "r": r, "theta": t, "phi": p, "class": kind})
+                     witness={"routine": "convDeriv", "deriv": d, "r": r, "theta": t, "phi": p, "class": kind, "route": route})
+
+    # -- container / dtype kinds, call routes, kinds of l_max, call histories, object identity: every answer vs the model
+    variants = _variants(ctx)
+    _run_variants(ctx, ut, "corr", variants, _model_refs(variants), "model")
+    # -- derivative routine and solid harmonics beyond l_max = 150 (long double region of the recursion)
+    _corr_high_degree(ctx, ut)
+    # -- convert_cart_to_sph: kinds of points / centre, call routes, radii from 1e-200 to 1e200, histories, identity
+    _run_c2s(ctx, ut, "corr")
 
 
 # --------------------------------------------------------------------------------------
@@ -615,3 +1390,126 @@ def oracle(ctx: Ctx, budget: str):
     w0 = [math.cos(0.3) * math.sin(0.4), math.sin(0.3) * math.sin(0.4), math.cos(0.4)]
     if not all(abs(a - b) <= 1e-15 for a, b in zip(g0, w0)):
         ctx.fail("oracle", "utils.convert_derivative_from_spherical_to_cartesian:r=0", f"r = 0 convention: {g0.tolist()} vs radial part only {w0}")
+
+    # (h) the same routines through every container / dtype kind, call route, kind of l_max, and in call histories
+    #     (overlapping arguments in different orders, same array twice, reuse after an in-place edit): the definition
+    #     must hold for every answer, independently of what was called before
+    _run_variants(ctx, ut, "oracle", _variants(ctx), _mp_refs(mp), "definition (50 digits)")
+    # (i) derivative routine and solid harmonics beyond l_max = 150
+    _oracle_high_degree(ctx, ut, mp)
+    # (j) convert_cart_to_sph inverts the parametrisation for every kind of points / centre, call route, radius, history
+    _run_c2s(ctx, ut, "oracle", mp)
+
+
+def _oracle_point(ctx: Ctx, ut, mp, routine, L, t, p, r=None, lms=None):
+    """The property at one point: rows `lms` (default all) of `routine` against the definition (50 digits; 2 l_max + 150
+    beyond degree 20). Same keys as in `oracle`."""
+    lms = py_lm_order(L) if lms is None else lms
+    dps = 50 if L <= 20 else 2 * L + 150
+    fn = getattr(ut, _FN[routine])
+    call = f"fn({L}, np.array([[{r!r}, {t!r}, {p!r}]]))" if routine == "solid" else f"fn({L}, np.array([{t!r}]), np.array([{p!r}]))"
+    try:
+        got = np.asarray(eval(call, {"np": np, "fn": fn}), dtype=float)
+    except Exception as e:
+        ctx.fail("oracle", f"utils.{_FN[routine]}:raises", f"{_FN[routine]}: `{call}` raised {type(e).__name__}: {str(e)[:150]}",
+                 witness={"l_max": L, "theta": t, "phi": p, "r": r}, snippet=SNIP_RAISE.format(fname=_FN[routine], pre="", call=call))
+        return
+    cls = "principal" if 0 <= p <= PI else "outside-principal-range"
+    with mp.workdps(dps):
+        for l, m in lms:
+            row = row_index(l, m)
+            if routine in ("recursion", "scipy"):
+                comps = [("Y", mp_ylm(mp, l, m, t, p), got[row, 0], f"[{row}, 0]", f"utils.{_FN[routine]}:definition:{cls}", 4e-13 * (L + 1) * (1 + abs(t)))]
+            elif routine == "solid":
+                comps = [("solid", mp.sqrt(4 * mp.pi / (2 * l + 1)) * mp.mpf(r) ** l * mp_ylm(mp, l, m, t, p), got[row, 0], f"[{row}, 0]",
+                          "utils.solid_harmonics:definition", 1e-12 * (L + 1) * max(1.0, abs(r) ** l))]
+            else:
+                comps = [("dtheta", -m * mp_ylm(mp, l, -m, t, p), got[0, row, 0], f"[0, {row}, 0]", f"utils.{_FN[routine]}:dtheta:{cls}", None)]
+                if abs(math.sin(p)) > 1e-3:  # at the poles d/dphi is 0 by documented convention
+                    comps.append(("dphi", mp.diff(lambda x: mp_ylm(mp, l, m, t, mp.mpf(p) + x), 0, h=mp.mpf(10) ** -(dps * 3 // 10)),
+                                  got[1, row, 0], f"[1, {row}, 0]", f"utils.{_FN[routine]}:dphi:{cls}", None))
+            for what, want, g, idx, key, tol in comps:
+                want, g = float(want), float(g)
+                tol = 1e-10 * max(1.0, abs(want)) if tol is None else tol
+                ctx.count(["oracle_at", routine, what, L, l, m, t, p, r], nontrivial=True, tag=f"oracle_at:{routine}")
+                if not abs(g - want) <= tol:
+                    ctx.fail("oracle", key, f"{_FN[routine]}(l_max={L}) at " + (f"r={r!r}, " if r is not None else "") + f"theta={t!r}, phi={p!r}: "
+                             f"{what} row (l={l}, m={m}) = {g!r}, definition ({dps} digits) {want!r}",
+                             witness={"l_max": L, "r": r, "theta": t, "phi": p, "l": l, "m": m, "component": what, "got": g, "want": want},
+                             snippet=SNIP_VAR.format(fname=_FN[routine], dps=dps, pre="", call=call, index=idx, l=l, m=m, r=r, t=t, p=p, j=0,
+                                                     want=_WANT[what], tol=tol, what=f"{what} row (l={l}, m={m}) for l_max={L}"))
+
+
+def oracle_at(ctx: Ctx, failure):
+    """A correspondence disagreement -> the property itself evaluated at exactly that input against the independent
+    reference (definition with mpmath; round trip; gradient of a polynomial), so that it becomes a failing input."""
+    import importlib
+    import mpmath as mp
+    ut = importlib.import_module("grid.utils")
+    w = failure.witness if isinstance(failure.witness, dict) else {}
+    key = failure.key
+    if key.startswith("variant:"):
+        # the variant is source text: replay all of them against the definition (once)
+        if not getattr(ctx, "_c08_variants_replayed", False):
+            ctx._c08_variants_replayed = True
+            mp.mp.dps = 50
+            _run_variants(ctx, ut, "oracle", _variants(ctx), _mp_refs(mp), "definition (50 digits)")
+            _run_c2s(ctx, ut, "oracle", mp)
+        return
+    routine = w.get("routine")
+    num = lambda x: float({"inf": "inf", "-inf": "-inf", "nan": "nan"}.get(x, x)) if isinstance(x, str) else float(x)
+    if routine in ("recursion", "scipy", "deriv", "solid") and {"l_max", "theta", "phi"} <= set(w):
+        L, t, p = int(w["l_max"]), num(w["theta"]), num(w["phi"])
+        r = num(w["r"]) if routine == "solid" else None
+        lms = None
+        if L > 12:  # only the row of the witness (and its partner -m, the zonal and the sectoral row of that degree)
+            l, m = (int(w["l"]), int(w["m"])) if "l" in w else py_lm_order(L)[max(int(w.get("row", 0)), 0)]
+            lms = list(dict.fromkeys([(l, m), (l, -m), (l, 0), (l, l), (L, m if abs(m) <= L else 0)]))
+        for rt in (("recursion", "scipy") if routine in ("recursion", "scipy") else (routine,)):
+            _oracle_point(ctx, ut, mp, rt, L, t, p, r, lms)
+    elif routine == "c2s" and "point" in w:
+        q = [num(x) for x in w["point"]]
+        c = [num(x) for x in (w.get("center") or [0.0, 0.0, 0.0])]
+        g = [float(x) for x in ut.convert_cart_to_sph(np.array([q]), np.array(c))[0]]
+        with mp.workdps(60):
+            d = [mp.mpf(a) - mp.mpf(b) for a, b in zip(q, c)]
+            r0 = mp.sqrt(d[0] ** 2 + d[1] ** 2 + d[2] ** 2)
+            ok = g[0] >= 0 and -PI <= g[1] <= PI and 0 <= g[2] <= PI and all(abs(x) != float("inf") for x in g)
+            if ok:
+                rr, tt, pp = (mp.mpf(x) for x in g)
+                back = [rr * mp.cos(tt) * mp.sin(pp), rr * mp.sin(tt) * mp.sin(pp), rr * mp.cos(pp)]
+                atol = 4e-16 * max(abs(x) for x in q + c)
+                ok = abs(rr - r0) <= 1e-14 * r0 + atol and max(abs(a - b) for a, b in zip(back, d)) <= 1e-13 * r0 + atol
+        ctx.count(["oracle_at", "c2s", q, c], nontrivial=True, tag="oracle_at:c2s")
+        big = max(abs(float(x)) for x in d)
+        if not ok and not RANGE_EDGE_IS_FAILURE and (big >= 1.3e154 or 0 < big < 1.5e-154):
+            ctx.info(f"convert_cart_to_sph({q}, center={c}) = {g}: outside the float range of the sum of squares (information)")
+        elif not ok:
+            ctx.fail("oracle", "utils.convert_cart_to_sph:roundtrip", f"convert_cart_to_sph({q}, center={c}) = {g} does not map back to the point "
+                     f"(true radius {float(r0)!r})", witness={"point": q, "center": c, "sph": g},
+                     snippet=SNIP_C2S.format(pre=f"P = np.array([{q!r}]); c = np.array({c!r})".replace("; ", "\n"), call="fn(P, c)", j=0, q=q, c=c,
+                                             tol=1e-13, atol=atol if all(abs(x) != float("inf") for x in g) else 0.0, slack=0.0, rtol=1e-14))
+    elif routine == "convDeriv" and {"r", "theta", "phi"} <= set(w):
+        r, t, p = num(w["r"]), num(w["theta"]), num(w["phi"])
+        if abs(r) < 1e-10 or abs(p) < 1e-10 or abs(math.sin(p)) < 1e-6:
+            return  # documented conventions at r = 0 / phi = 0; the chart is singular on the axis
+        for grad in ([1.0, 0.0, 0.0], [0.0, 1.0, 0.0], [0.0, 0.0, 1.0], [0.3, -1.1, 0.7]):  # gradient of a linear function
+            dxr = [math.cos(t) * math.sin(p), math.sin(t) * math.sin(p), math.cos(p)]
+            dxt = [-r * math.sin(t) * math.sin(p), r * math.cos(t) * math.sin(p), 0.0]
+            dxp = [r * math.cos(t) * math.cos(p), r * math.sin(t) * math.cos(p), -r * math.sin(p)]
+            fr, ft, fp = (sum(a * b for a, b in zip(grad, dd)) for dd in (dxr, dxt, dxp))
+            got = np.asarray(ut.convert_derivative_from_spherical_to_cartesian(fr, ft, fp, r, t, p), dtype=float)
+            ctx.count(["oracle_at", "convDeriv", grad, r, t, p], nontrivial=True, tag="oracle_at:convDeriv")
+            if not all(abs(a - b) <= 1e-11 * max(1.0, 1.0 / abs(math.sin(p))) for a, b in zip(got, grad)):
+                ctx.fail("oracle", "utils.convert_derivative_from_spherical_to_cartesian:gradient",
+                         f"gradient of the linear function {grad} . x through its spherical derivatives at (r,theta,phi)=({r!r},{t!r},{p!r}): "
+                         f"routine {got.tolist()}", witness={"grad": grad, "r": r, "theta": t, "phi": p, "got": got.tolist()},
+                         snippet=("import numpy as np, math\nfrom grid.utils import convert_derivative_from_spherical_to_cartesian as f\n"
+                                  f"g, r, t, p = {grad!r}, {r!r}, {t!r}, {p!r}\n"
+                                  "J = [[math.cos(t)*math.sin(p), math.sin(t)*math.sin(p), math.cos(p)],\n"
+                                  "     [-r*math.sin(t)*math.sin(p), r*math.cos(t)*math.sin(p), 0.0],\n"
+                                  "     [r*math.cos(t)*math.cos(p), r*math.sin(t)*math.cos(p), -r*math.sin(p)]]\n"
+                                  "fr, ft, fp = (sum(a*b for a, b in zip(g, row)) for row in J)\n"
+                                  "got = f(fr, ft, fp, r, t, p)\n"
+                                  "assert all(abs(a - b) <= 1e-10 / abs(math.sin(p)) for a, b in zip(got, g)), (list(got), g)\n"))
+                break
